@@ -98,6 +98,24 @@ def _res_inputs():
     return ResNetwork(R, silence_level=3), {"resistances": R}
 
 
+def _es_inputs():
+    from pyunicorn.eventseries import EventSeries
+    d = np.array([families.SERIES, families.SERIES_Y, families.SERIES[::-1], np.roll(families.SERIES_Y, 3)]).T
+    ev = V((d > 0.4).astype(int))
+    ts = V(np.arange(len(d)).astype(float))
+    return EventSeries(ev, timestamps=ts, taumax=3.0, lag=1.0), {"events": ev, "timestamps": ts}
+
+
+def _es_calls(obj):
+    calls = [("get_event_matrix", obj.get_event_matrix)]
+    for sym in ("directed", "symmetric", "antisym", "mean", "max", "min"):
+        calls.append(("ES(%s)" % sym, lambda sym=sym: obj.event_series_analysis(method="ES", symmetrization=sym)))
+        for wt in ("retarded", "advanced", "symmetric"):
+            calls.append(("ECA(%s,%s)" % (sym, wt), lambda sym=sym, wt=wt: obj.event_series_analysis(
+                method="ECA", symmetrization=sym, window_type=wt)))
+    return calls
+
+
 class Target:
     """One class under test: how to build it from caller arrays and what to query."""
 
@@ -154,6 +172,7 @@ TARGETS = {
                     "cross_global_clustering_yx", "cross_transitivity_xy", "cross_transitivity_yx"], None),
     "surrogates": Target("surrogates", _surrogates_inputs, lambda obj: [], _surr_calls),
     "climate": Target("climate", _clim_inputs, _fam_names("climate"), _fam_calls("climate", {})),
+    "eventseries": Target("eventseries", _es_inputs, lambda obj: [], _es_calls),
     "resnetwork": Target("resnetwork", _res_inputs, _fam_names("resnetwork"), _fam_calls("resnetwork", {})),
     "tsonis": Target("tsonis", lambda: _climate_inputs("TsonisClimateNetwork")[:2], lambda obj: ["correlation"],
                      _climate_calls),
@@ -374,6 +393,9 @@ def _rebuild(target, inputs):
         return ClimateNetwork(families._grid(), inputs["similarity_measure"], threshold=0.4, **kw)
     if target == "resnetwork":
         return ResNetwork(inputs["resistances"], **kw)
+    if target == "eventseries":
+        from pyunicorn.eventseries import EventSeries
+        return EventSeries(inputs["events"], timestamps=inputs["timestamps"], taumax=3.0, lag=1.0)
     return None
 
 
@@ -449,7 +471,7 @@ def _nontrivial(rec):
 
 
 QUICK_TARGETS = ["network", "rp", "rn", "jrp", "surrogates", "climate", "resnetwork", "tsonis", "mutualinfo",
-                 "spearman", "isrn"]
+                 "spearman", "isrn", "eventseries"]
 
 
 def main(ctx):
